@@ -138,6 +138,16 @@ def valid_templates(tier="quick"):
     T.append(_mk("validation_of_discovered", [Variant("v0", st, defaults=["top"])], {"dd.in": dd7}, ops, [nb], depth, ["produced", "validation"]))
     T.append(_mk("validation_of_discovered/fresh", [Variant("v0", st, defaults=["top"])], {"dd.in": dd7}, ops, [], 2, ["produced", "validation", "fresh"]))
 
+    # D9: the discovered input is up to date, but its producer has a dirty order-only input; the dyndep file is
+    # re-produced in the build and the bound statement itself stays clean
+    dd9 = dyndep_text([("out", [], ["x"], False)])
+    st = [Stmt("dd", ex=["dd.in"], copy=True), Stmt("po", ex=["ps"]), Stmt("x", ex=["s"], oo=["po"]),
+          Stmt("out", ex=["in"], oo=["dd"], dyndep="dd", extra_reads=["x"]), Stmt("top", ex=["out"])]
+    ops, nb = common_ops([{"op": "touch", "path": "dd.in", "label": "touch dd.in"}, {"op": "edit", "path": "ps", "label": "edit ps"},
+                          {"op": "rm", "path": "po", "label": "rm po"}])
+    T.append(_mk("order_only_behind_discovered", [Variant("v0", st, defaults=["top"])], {"dd.in": dd9}, ops, [nb], depth,
+                 ["produced", "order-only"]))
+
     # D6: restat supplied by the dyndep file
     dd6 = dyndep_text([("out", [], [], True)])
     o = Stmt("out", ex=["in"], oo=["dd"], dyndep="dd", restat=False)
